@@ -71,8 +71,9 @@ ASSUMPTIONS = [
     "sampling dates are given as ages (min 0); calendar dates are C02/C06's subject",
     "histories: ratio-parameterised trees use the documented ratio -> height map (bound + ratio * (parent - bound)), "
     "re-implemented in vt/gen/coal.py and compared with torchtree on 200 trees while building the check; rounds in "
-    "which three sorted heights come within 1e-6 of the root height of each other only assert the relation "
-    "between the two published quantities, not the ones that need oracle weights (ill-conditioned weights)",
+    "which three sorted heights come within 1e-6 of the root height of each other (a smoothing weight that is "
+    "zero or dominated by rounding; reachable with equal ratios in sibling clades) read the quantities but "
+    "assert nothing; counted under the label round-with-coincident-heights-not-asserted",
     "histories: in coalescent_history the log population sizes are built with requires_grad (autograd of the "
     "reported densities is the reference for the operator's gradient); toggling the flag would itself notify the "
     "listeners and hide stale caches",
@@ -876,6 +877,13 @@ def body_gmrf_history(c):
 
     def observe(order, k, ups, ok):
         k0 = len(res.fails)
+        if not ok:
+            # (nearly) coincident heights: a smoothing weight is zero or dominated by rounding; the
+            # quantities are still read (cache state evolves as drawn) but nothing is asserted
+            for o in order:
+                {"density": gmrf, "matrix": gmrf.precision_matrix, "integrated": gint}[o]()
+            res.labels = res.labels + ("round-with-coincident-heights-not-asserted",)
+            return
         ws = [gmrf_row_weights(cur, r) for r in range(rows)]
         sub = tuple(o for o in order if o != "integrated")  # density / matrix, in the drawn order
         if "integrated" in order and order[0] == "integrated" and ok:
